@@ -45,6 +45,7 @@ class Sim:
         self.fair = False               # fair phase: oldest-enabled-first instead of tape choice
         self.fault_prefixes = ("break", "cancel:", "stop", "fault:")
         self.fault_den = 8
+        self.clock_den = 6
         self._since = {}                # fair phase: label -> step at which it became enabled
         self.extra = (extra_num, extra_den)
         self.on_step: Optional[Callable[[str], None]] = None
@@ -112,6 +113,11 @@ class Sim:
             # created any in-flight state.  So: first decide *whether* a fault happens now
             # (1 in fault_den), then which event of that class.
             fidx = [i for i, (lab, _) in enumerate(evs) if lab.startswith(self.fault_prefixes)]
+            if evs and t is not None and not self.tape.chance(1, self.clock_den, "clock?"):
+                # time passes (a timer elapses before anything else happens) only now and then;
+                # otherwise polling loops would mostly watch the clock run out
+                n = len(evs)
+                t = None
             if fidx and len(fidx) < n:
                 if self.tape.chance(1, self.fault_den, "fault?"):
                     k = fidx[self.tape.draw(len(fidx), "which-fault")]
